@@ -15,7 +15,7 @@ import (
 
 // C07 — handler panics and transport failures are contained and routed as exceptions.
 
-var c07Values = []string{"error", "string", "runtime", "timeout", "neterr", "wrapped-neterr"}
+var c07Values = []string{"error", "string", "runtime", "timeout", "neterr", "wrapped-neterr", "stringer-error"}
 var c07Entries = []string{"chwrite", "chtrigger", "readloop", "ctxwrite", "ctxtrigger"}
 
 func genC07(t *rapid.T) E3Case {
@@ -76,10 +76,7 @@ func genC07(t *rapid.T) E3Case {
 		c.Events = append(c.Events, E3Event{Entry: "close"}, E3Event{Entry: rapid.SampledFrom(c07Entries[:2]).Draw(t, "afterclose")})
 	}
 	if rapid.IntRange(0, 3).Draw(t, "fault") == 0 {
-		op := "write"
-		if c.Queue > 0 {
-			op = "writev"
-		}
+		op := "wr" // the K-th transport write, whether the channel uses Write or Writev for it
 		if rapid.Bool().Draw(t, "flushfault") {
 			op = "flush"
 		}
@@ -348,7 +345,7 @@ type c07Faults struct {
 
 func (f *c07Faults) find(op string, k int) *mock.Fault {
 	for i := range f.faults {
-		if f.faults[i].Op == op && f.faults[i].K == k {
+		if (f.faults[i].Op == op || (f.faults[i].Op == "wr" && (op == "write" || op == "writev"))) && f.faults[i].K == k {
 			return &f.faults[i]
 		}
 	}
